@@ -2,6 +2,7 @@ import TextxVerif.Proofs.ExportModel
 import TextxVerif.Proofs.ExportPuml
 import TextxVerif.Proofs.ExportTotal
 import TextxVerif.Proofs.ExportDomain
+import TextxVerif.ExportCall
 /-!
 # C29 — graph exports are well-formed for any model and metamodel
 
@@ -154,6 +155,97 @@ theorem C29_model_export_total (h : Heap) (roots : List Root) (hc : Closed h) (h
     ∃ text, exportModel h roots = some text :=
   exportModel_total h hc roots hr
 
+/-! ## the call: `model`, `repo` and the repository the model carries -/
+
+/-- objects reachable from the given objects through attribute values -/
+inductive ReachFrom (h : Heap) (ids : List Nat) : Nat → Prop
+  | start {i : Nat} : i ∈ ids → ReachFrom h ids i
+  | step {n t : Nat} {o : Obj} : ReachFrom h ids n → h.get n = some o → t ∈ o.refs → ReachFrom h ids t
+
+/-- **Argument check.** The call raises (before anything but the header is written) exactly
+when `model` and `repo` are both given or both missing — an empty `repo` counts as missing. -/
+theorem C29_call_argcheck (a : Args) : planArgs a = none ↔ a.model.isSome = repoTruthy a.repo := by
+  unfold planArgs argsOk
+  cases hm : a.model.isSome <;> cases hr : repoTruthy a.repo <;> simp <;> split <;> simp
+
+/-- **The call exports what was asked for.** Whatever repository the model carries — none,
+an empty one (a model without imports), one that contains the model (a model with imports)
+or one that does not (the repository of a metamodel with a global repository and a model
+loaded from a string) — and whatever `repo` is (`None`, an empty or a non-empty iterable):
+when the call does not raise, the `model` argument and every model of a non-empty `repo`
+are among the exported roots. -/
+theorem C29_call_covers (a : Args) (roots : List Root) (hp : planArgs a = some roots) :
+    ∀ i ∈ requested a, ∃ r ∈ roots, r.id = i := by
+  intro i hi
+  unfold planArgs at hp
+  split at hp
+  · simp at hp
+  rename_i hok
+  simp only [Bool.not_eq_true, Bool.not_eq_false'] at hok
+  simp only [requested, List.mem_append, Option.mem_toList] at hi
+  rcases hi with hi | hi
+  · -- the model argument: `_export(model)` is the last statement of both branches
+    have hpl : Root.plain i ∈ plainOf a.model := by
+      have hi' : a.model = some i := hi
+      simp [hi', plainOf]
+    split at hp <;> simp only [Option.some.injEq] at hp <;> subst hp
+    · exact ⟨.plain i, List.mem_append_right _ hpl, rfl⟩
+    · exact ⟨.plain i, hpl, rfl⟩
+  · -- a model of the explicit repository
+    cases hr : repoTruthy a.repo with
+    | false => simp [hr] at hi
+    | true =>
+      simp only [hr, if_true, List.mem_map] at hi
+      obtain ⟨m, hm, rfl⟩ := hi
+      have hb : repoBranch a = some ([], a.repo.getD []) := by simp [repoBranch, hr]
+      simp only [hb, Option.some.injEq] at hp
+      subst hp
+      refine ⟨m.root, ?_, rfl⟩
+      apply List.mem_append_left
+      apply List.mem_append_right
+      exact List.mem_map.mpr ⟨m, hm, rfl⟩
+
+theorem reach_of_reachFrom {h : Heap} {ids : List Nat} {roots : List Root}
+    (hc : ∀ i ∈ ids, ∃ r ∈ roots, r.id = i) {i : Nat} (hi : ReachFrom h ids i) : Reach h roots i := by
+  induction hi with
+  | start hs =>
+    obtain ⟨r, hr, rfl⟩ := hc _ hs
+    exact Reach.root hr
+  | step _ ho ht ih => exact Reach.step ih ho ht
+
+/-- **Export call.** For every object graph with safe class / attribute names, every
+`model` / `repo` argument and every repository carried by the model: if the call produces a
+text, it is valid DOT (the recogniser reports exactly the written statements), no object has
+two nodes, every edge target has its node, and every object reachable from the `model`
+argument or from a model of the `repo` argument has its node. -/
+theorem C29_export_call_valid (h : Heap) (a : Args) (hh : HeapOk h) (text : Str)
+    (he : exportCall h a = some text) :
+    ∃ roots ss, planArgs a = some roots ∧ exportModelStmts h roots = some ss ∧ text = renderDoc ss ∧
+      recognise text = some (headerEvs ++ ss.flatMap stmtEvs) ∧
+      (∀ m i n a, Stmt.node m i n a ∈ ss → recOk (recordLabel n a) = true) ∧
+      (nodeIds ss).Nodup ∧
+      (∀ d ∈ edgeTargets ss, d ∈ nodeIds ss) ∧
+      (∀ i, ReachFrom h (requested a) i → i ∈ nodeIds ss) := by
+  unfold exportCall at he
+  cases hp : planArgs a with
+  | none => simp [hp] at he
+  | some roots =>
+    simp only [hp, Option.bind_some] at he
+    obtain ⟨ss, h1, h2, h3, _, h5, h6, h7, h8⟩ := C29_model_export_valid h roots hh text he
+    exact ⟨roots, ss, rfl, h1, h2, h3, h5, h6, h7,
+      fun i hi => h8 i (reach_of_reachFrom (C29_call_covers a roots hp) hi)⟩
+
+/-- The behaviour before the repair (no `_export(model)` after the loop over the repository)
+violates the property: a model whose repository holds another model but not the model itself
+(metamodel with a global repository, model loaded from a string) gets no node. -/
+theorem C29_model_outside_repo_false :
+    let h : Heap := [{ id := 1, cls := cl!"M", attrs := some [] }, { id := 2, cls := cl!"M", attrs := some [] }]
+    let a : Args := { model := some 1, repo := none, own := some [{ fname := cl!"f", kids := [2], id := 2 }] }
+    ((planArgsPinned a).bind (exportModelStmts h)).map nodeIds = some [2] ∧
+      ((planArgs a).bind (exportModelStmts h)).map nodeIds = some [2, 1] := by
+  decide +kernel
+
+
 /-! ## `metamodel_export_tofile` -/
 
 /-- **Metamodel, DOT renderer.** For every list of unified classes whose class and
@@ -276,6 +368,17 @@ theorem C29_plantuml_checked (all : List MCls) (base : List Str) (lt : Option St
   obtain ⟨items, _, h3, h4⟩ := C29_plantuml_balanced all base lt hall (linetypeOk_of_B h2) text he
   exact ⟨_, h3, h4⟩
 
+/-- the same with executable hypotheses (evaluated by the driver on every compared case):
+a text is produced whenever the argument check passes -/
+theorem C29_export_call_checked (h : Heap) (a : Args) (roots : List Root) (h0 : planArgs a = some roots)
+    (h1 : heapOkB h = true) (h2 : closedB h roots = true) :
+    ∃ text ss, exportCall h a = some text ∧ text = renderDoc ss ∧
+      recognise text = some (headerEvs ++ ss.flatMap stmtEvs) ∧
+      (nodeIds ss).Nodup ∧ ∀ i, ReachFrom h (requested a) i → i ∈ nodeIds ss := by
+  obtain ⟨text, ss, e1, e2, e3, e4, e5⟩ := C29_model_export_checked h roots h1 h2
+  refine ⟨text, ss, by simp [exportCall, h0, e1], e2, e3, e4, ?_⟩
+  exact fun i hi => e5 i (reach_of_reachFrom (C29_call_covers a roots h0) hi)
+
 /-- The pinned behaviour (no escaping of `name`) violates the property: an object named
 `a"b` yields a text the recogniser rejects, and an object named `a{b` yields a label that
 is not a well-formed record. -/
@@ -289,6 +392,15 @@ theorem C29_unescaped_false :
 /-! ## non-vacuity -/
 
 example : dotEscape cl!"a\"b{|}\n\\" = cl!"a\\\"b\\{\\|\\}\\\\n\\\\" := by decide
+
+/-- a model without imports under an ImportURI provider: empty repository, the model itself is exported -/
+example : planArgs { model := some 1, repo := none, own := some [] } = some [.plain 1, .plain 1] := by decide
+
+/-- an explicit empty `repo` next to a model that carries no repository -/
+example : planArgs { model := some 1, repo := some [], own := none } = some [.plain 1] := by decide
+
+example : planArgs { model := some 1, repo := some [{ fname := cl!"f", kids := [], id := 1 }], own := none } = none := by
+  decide
 
 example : exportModel
     [{ id := 1, cls := cl!"M", attrs := some [
